@@ -812,6 +812,35 @@ Proof.
   apply (cinv_ext fl (dsum counts)); [|exact Hi2]. intros x _ _. unfold zero. lia.
 Qed.
 
+(** ** several meta entities posted back to core.Dataset *)
+Lemma setpub_any_inv fl k n p :
+  cf_txn_pub fl = true -> cf_rm_pub fl = true -> cinv fl zero k -> cinv fl zero (setpub_any fl k n p).
+Proof.
+  intros Htp Hrp Hi. unfold setpub_any.
+  destruct (read_meta k n) as [m0|] eqn:Em0; [|exact Hi].
+  destruct Hi as [Hb Hr Hm Hc].
+  assert (Hn0 : m_name m0 = n).
+  { apply read_meta_Some in Em0. destruct Em0 as [c [Hcs <-]]. destruct (b_core _ Hb _ _ Hcs) as [mm [Hid ->]].
+    rewrite meta_parse_content. apply meta_uri_inj in Hid. congruence. }
+  pose proof (Hm n) as Hmn. unfold clause in Hmn. rewrite Em0 in Hmn.
+  pose proof (store_meta_inv (fun _ => True) fl false zero k n (with_pub m0 p) Htp Hrp Hb Hr Hn0 (or_introl I)
+                             (fun n' _ _ => Hm n') Hc) as H.
+  destruct H as (H1 & H2 & H3 & H4 & _).
+  - destruct (assoc n (k_reg k)) as [r|] eqn:Ea.
+    + destruct Hmn as (m & Hx & Hnm & Hs & Hd & Hit). injection Hx as <-.
+      cbn [with_pub m_set s_kind m_del m_items]. split; [now rewrite Hs|]. split; [exact Hd|]. split; [exact Hit|].
+      intros Hn Hcc. rewrite Hn in Em0. exact (Hc Hcc m0 Em0).
+    + exact Hmn.
+  - constructor; try assumption. intros n'. apply H3. now right.
+Qed.
+
+Lemma do_setpubm_inv fl l : cf_txn_pub fl = true -> cf_rm_pub fl = true ->
+  forall k, cinv fl zero k -> cinv fl zero (do_setpubm fl k l).
+Proof.
+  intros Htp Hrp. unfold do_setpubm. induction l as [|[n p] l IH]; intros k Hi; cbn [fold_left fst snd]; [exact Hi|].
+  apply IH. now apply setpub_any_inv.
+Qed.
+
 (** ** every operation, every history *)
 Lemma apply_cop_inv fl k o :
   cf_txn_pub fl = true -> cf_rm_pub fl = true -> cinv fl zero k -> cinv fl zero (apply_cop fl k o).
